@@ -436,7 +436,7 @@ func c08Run(c *core.Ctx) {
 }
 
 func c08Replay(c *core.Ctx, payload json.RawMessage) {
-	if c08DialectReplay(c, payload) || c08FailedAttrReplay(c, payload) || c08LongReplay(c, payload) || c08AlterCancelReplay(c, payload) {
+	if c08DialectReplay(c, payload) || c08FailedAttrReplay(c, payload) || c08LongReplay(c, payload) || c08AlterCancelReplay(c, payload) || c08RQReplay(c, payload) {
 		return
 	}
 	var cp c08CancelPayload
